@@ -51,6 +51,39 @@ def call_rigid_body(name, a, pose):
     raise ValueError(f"unknown factory {name}")
 
 
+def run_history(rb, hist, E, P):
+    """apply a sequence of property reads / express_in calls to one RigidBody; after every step record what
+    was returned and the state (vertices_, body2origin_) a direct computation has to be made from"""
+    snaps = []
+    for op in hist:
+        name = op[0]
+        rec = {"op": name}
+        try:
+            if name == "com":
+                rec["value"] = np.asarray(rb.com, dtype=float).reshape(-1).tolist()
+            elif name == "aabbs":
+                rec["value"] = np.asarray(rb.aabbs, dtype=float).reshape(-1).tolist()
+            elif name == "tp":
+                rec["value"] = np.asarray(rb.tetrahedra_points, dtype=float).reshape(-1).tolist()
+            elif name == "tpot":
+                rec["value"] = np.asarray(rb.tetrahedra_potentials, dtype=float).reshape(-1).tolist()
+            elif name == "aabb":
+                rec["value"] = np.asarray(rb.aabb(), dtype=float).reshape(-1).tolist()
+            elif name == "express_in":
+                rb.express_in(np.array(op[1], dtype=float).reshape(4, 4))
+            else:
+                raise ValueError(f"unknown history op {name}")
+        except Exception as e:  # noqa: BLE001
+            rec["exc"] = type(e).__name__
+            rec["exc_msg"] = str(e)[:200]
+        rec["vertices"] = np.asarray(rb.vertices_, dtype=float).reshape(-1).tolist()
+        rec["body2origin"] = np.asarray(rb.body2origin_, dtype=float).reshape(-1).tolist()
+        rec["same_tetrahedra"] = bool(np.array_equal(np.asarray(rb.tetrahedra_), E))
+        rec["same_potentials"] = bool(np.array_equal(np.asarray(rb.potentials_), P))
+        snaps.append(rec)
+    return snaps
+
+
 def run_case(c):
     out = {}
     try:
@@ -86,6 +119,8 @@ def run_case(c):
             if c.get("root_aabb"):
                 r["root_aabb"] = np.asarray(rb.aabb(), dtype=float).reshape(-1).tolist()
             out["rigid_body"] = r
+            if c.get("history"):
+                out["history"] = run_history(call_rigid_body(name, a, pose), c["history"], E, P)
     except Exception as e:  # noqa: BLE001
         out = {"exc": type(e).__name__, "exc_msg": str(e)[:300], "tb": traceback.format_exc()[-600:]}
     return out
